@@ -18,12 +18,14 @@ Handed == SelectSeq(Norm(out), LAMBDA x : x.r \in {"msg", "headers", "att"})
 
 TInit == /\ stream = <<>> /\ avail = 0 /\ pos = 0 /\ buf = 0 /\ pre = 0 /\ pend = 0 /\ nl = 0
          /\ st = NoneSt /\ pc = "call" /\ want = -1 /\ out = <<>> /\ halted = FALSE /\ done = TRUE
+         /\ tmo = "body" /\ sil = FALSE
          /\ l = 1 /\ seen = 0 /\ TLCSet(7, 1)
 
 TReset == /\ IsEvent("Reset") /\ Finished
           /\ stream' = E.frames /\ avail' = Total(E.frames)
           /\ pos' = 0 /\ buf' = 0 /\ pre' = 0 /\ pend' = 0 /\ nl' = 0
           /\ st' = NoneSt /\ pc' = "call" /\ want' = -1 /\ out' = <<>> /\ halted' = FALSE /\ done' = FALSE
+          /\ tmo' = "body" /\ sil' = FALSE
           /\ seen' = 0
 
 \* the machine of Codec.tla, unlogged
